@@ -7,7 +7,7 @@ import numpy as np
 from hypothesis import strategies as st
 
 from vf import arrays as A
-from vf.core import Reject, Sub, ensure, impl, reference
+from vf.core import Reject, Sub, Violation, ensure, impl, reference
 
 PROPERTY = "C32"
 PRELOAD = ["dask.array"]
@@ -27,6 +27,8 @@ ASSUMPTIONS = [
     "with +-inf in the data only the non-arithmetic methods lower/higher/nearest are checked (interpolating between "
     "infinite values is NaN in NumPy itself)",
     "the one-chunk clause compares values only (dask documents a float result dtype for integer input)",
+    "axis sub-checks: explicit zero-size chunks are not explored (empty blocks crash _custom_nanquantile in several unrelated "
+    "ways; reported, not listed); the 1-d approximate path keeps a zero-size-chunk stratum (~6 % of cases, flag zero_chunk)",
 ]
 TECHNIQUE = "metamorphic bounds/monotonicity over exhaustive chunkings and Hypothesis data; differential vs NumPy along axes"
 
@@ -55,6 +57,30 @@ def data_1d(spec):
     return x
 
 
+def merge_diag(x, chunks, q, method):
+    """DIAGNOSTIC ONLY -- labels the signature of a violation, never decides one.  Recomputes the two quantities of
+    dask.array.percentile.merge_percentiles that the listed findings hinge on: the cumulative observation counts
+    ``combined_q`` (same per-chunk np.percentile knots, same np.argsort order) and ``desired_q = q * n``.  Returns
+    (low, above_top): ``low[i]`` -- q[i] lies at or below the first cumulative count (finding merge-low-end: the knot is then
+    looked up at index -1 or among leading zero-weight knots); ``above_top`` -- float rounding made the last cumulative
+    count exceed 100 * n (finding merge-top-rounding)."""
+    qa = np.asarray(q if isinstance(q, list) else [q])
+    if qa.size == 0:
+        return np.zeros(0, bool), False
+    calc_q = np.concatenate((np.zeros(1, qa.dtype), qa, np.full(1, 100, qa.dtype)))
+    vals, counts, off = [], [], 0
+    for c in chunks:
+        blk, off = x[off:off + c], off + c
+        if c:
+            vals.append(np.percentile(blk, calc_q, method=method))
+            cnt = np.empty(len(calc_q), dtype=qa.dtype)
+            cnt[1:], cnt[0] = np.diff(calc_q), calc_q[0]
+            counts.append(cnt * c)
+    with np.errstate(all="ignore"):
+        cq = np.cumsum(np.concatenate(counts)[np.argsort(np.concatenate(vals))])
+    return qa * len(x) <= cq[0], bool(100 * len(x) < cq[-1])
+
+
 def approx_check(spec):
     import dask.array as da
 
@@ -71,15 +97,24 @@ def approx_check(spec):
     ensure(p.shape == (() if scalar else (len(q),)) and tuple(r.shape) == p.shape, f"result shape {p.shape} (lazy {r.shape}) for q={q}", "shape-mismatch", **sig)
     qs, ps = np.atleast_1d(q), np.atleast_1d(p).astype("f8")
     lo, hi = float(x.min()), float(x.max())
+    low, above_top = merge_diag(x, spec["chunks"], q, method)
     ensure(not np.isnan(ps).any(), f"NaN percentile {ps} for NaN-free data {x.tolist()} q={q}", "nan-result", **sig)
     ensure(np.all(ps >= lo) and np.all(ps <= hi), f"percentiles {ps.tolist()} outside [min, max] = [{lo}, {hi}] (x={x.tolist()}, chunks={spec['chunks']}, q={q})", "out-of-range", **sig)
-    order = np.argsort(qs, kind="stable")
-    ensure(np.all(ps[order][1:] >= ps[order][:-1]), f"not monotone in q: q={qs[order].tolist()} p={ps[order].tolist()} (x={x.tolist()}, chunks={spec['chunks']})", "not-monotone", **sig)
-    for qq, target, name in ((0, lo, "min"), (100, hi, "max")):
+
+    def endpoint(qq, target, name, **flag):
         for v in ps[qs == qq]:
             # "up to floating-point rounding": np.interp evaluates slope*(x-x0)+y0, a few ulps of the data magnitude
             ok = v == target or (np.isfinite(target) and abs(v - target) <= 16 * np.finfo("f8").eps * max(abs(lo), abs(hi)))
-            ensure(ok, f"p({qq}) = {v!r} != {name} = {target!r} (x={x.tolist()}, chunks={spec['chunks']}, method={method})", f"endpoint-{name}-mismatch", **sig)
+            ensure(ok, f"p({qq}) = {v!r} != {name} = {target!r} (x={x.tolist()}, chunks={spec['chunks']}, method={method})", f"endpoint-{name}-mismatch", **flag, **sig)
+
+    # low_end / top_rounding are input-class flags of the two listed findings (see merge_diag); they only label the signature
+    endpoint(0, lo, "min", low_end=True)
+    order = np.argsort(qs, kind="stable")
+    if not np.all(ps[order][1:] >= ps[order][:-1]):
+        rest = ps[order][~low[order]]
+        raise Violation(f"not monotone in q: q={qs[order].tolist()} p={ps[order].tolist()} (x={x.tolist()}, chunks={spec['chunks']})", "not-monotone",
+                        low_end=bool(low.any() and np.all(rest[1:] >= rest[:-1])), **sig)
+    endpoint(100, hi, "max", top_rounding=bool(above_top))
     # one chunk: only for method="linear", where merging a single chunk's percentiles is the identity (np.interp at its own
     # knots); for the other methods the approximate algorithm re-ranks the knots and dask does not promise NumPy's answer
     if len([c for c in spec["chunks"] if c]) == 1 and method == "linear":
@@ -212,7 +247,10 @@ def axis_enum(tier):
 
 @st.composite
 def axis_random(draw):
-    arr = draw(A.array_spec(min_dims=1, max_dims=3, min_side=1, max_side=6, dtypes=("f8", "f8", "f8", "i8", "i8", "f4"), fills=("normal", "dups", "small"), allow_zero_chunks=draw(st.integers(0, 9)) == 0))
+    arr = draw(A.array_spec(min_dims=1, max_dims=3, min_side=1, max_side=6, dtypes=("f8", "f8", "f8", "i8", "i8", "f4"), fills=("normal", "dups", "small")))
+    # explicit zero-size chunks are NOT explored along axes: that stratum produced three unrelated crashes on the first runs
+    # (ZeroDivisionError in _span_indexers for an empty block, np.nanquantile(axis=[..]) TypeError on an empty block, and the
+    # multi-block length-1 axis defect that C19 lists) -- none of them about percentiles; see ASSUMPTIONS
     nd = len(arr["shape"])
     # (1-d da.percentile is the approximate algorithm and takes no axis=; along-axis percentile exists for ndim >= 2)
     fn = draw(st.sampled_from(["nanpercentile", "nanpercentile", "percentile"] if nd > 1 else ["nanpercentile"]))
